@@ -16,8 +16,8 @@ from simdbus.sched import Scheduler
 
 PROPERTY = 'C17'
 LEVEL = 'exploration'
-QUICK_RUNS = 6000
-QUICK_BUDGET_S = 90
+QUICK_RUNS = 16000
+QUICK_BUDGET_S = 60
 THOROUGH_BUDGET_S = 600
 RULE = ('generated property declarations (16 signatures x 3 access modes x 3 notification '
         'modes, same name on two interfaces, inheritance) x histories of 3-25 local '
